@@ -25,6 +25,8 @@ pub enum CapEntry {
     CaptureSlicesDeadline,
     /// Compact<Replace<Capture>> assembled by hand around algorithms::diff (as documented)
     Manual,
+    /// the same with a borrowed capture: Compact<Replace<&mut Capture>> (the `&mut D` hook impl)
+    ManualBorrowed,
     /// TextDiff::from_slices(..).ops() over one-character SymTxt tokens
     TextFromSlices,
     /// TextDiff::configure().algorithm(a).deadline(..).diff_slices(..).ops()
@@ -38,6 +40,7 @@ impl CapEntry {
             CapEntry::CaptureSlices => "capture_diff_slices",
             CapEntry::CaptureSlicesDeadline => "capture_diff_slices_deadline",
             CapEntry::Manual => "Compact<Replace<Capture>>+algorithms::diff",
+            CapEntry::ManualBorrowed => "Compact<Replace<&mut Capture>>+algorithms::diff",
             CapEntry::TextFromSlices => "TextDiff::from_slices",
             CapEntry::TextConfigDeadline => "TextDiffConfig::deadline+diff_slices",
         }
@@ -49,6 +52,7 @@ impl CapEntry {
             "capture_diff_slices" => CapEntry::CaptureSlices,
             "capture_diff_slices_deadline" => CapEntry::CaptureSlicesDeadline,
             "TextDiff::from_slices" => CapEntry::TextFromSlices,
+            "Compact<Replace<&mut Capture>>+algorithms::diff" => CapEntry::ManualBorrowed,
             "TextDiffConfig::deadline+diff_slices" => CapEntry::TextConfigDeadline,
             _ => CapEntry::Manual,
         }
@@ -120,6 +124,14 @@ pub fn capture(s: &Shape, inp: &Inputs) -> Vec<DiffOp> {
             }
             _ => unreachable!(),
         },
+        CapEntry::ManualBorrowed => {
+            let mut cap = Capture::new();
+            {
+                let mut d = Compact::new(Replace::new(&mut cap), &inp.old, &inp.new);
+                algorithms::diff(s.alg, &mut d, &inp.old, inp.or.clone(), &inp.new, inp.nr.clone()).unwrap();
+            }
+            cap.into_ops()
+        }
         CapEntry::Manual => {
             let mut d = Compact::new(Replace::new(Capture::new()), &inp.old, &inp.new);
             algorithms::diff(s.alg, &mut d, &inp.old, inp.or.clone(), &inp.new, inp.nr.clone()).unwrap();
@@ -297,7 +309,7 @@ impl Prop for Captured {
                         }
                         let entries: Vec<(CapEntry, bool)> = match self.0 {
                             Which::C03 => vec![(CapEntry::CaptureDiff, false)],
-                            Which::C11 => vec![(CapEntry::CaptureDiff, false), (CapEntry::CaptureSlices, false), (CapEntry::Manual, false), (CapEntry::TextFromSlices, false)],
+                            Which::C11 => vec![(CapEntry::CaptureDiff, false), (CapEntry::CaptureSlices, false), (CapEntry::Manual, false), (CapEntry::ManualBorrowed, false), (CapEntry::TextFromSlices, false)],
                             _ => vec![
                                 (CapEntry::CaptureDiff, false),
                                 (CapEntry::CaptureDiffDeadline, false),
@@ -305,6 +317,7 @@ impl Prop for Captured {
                                 (CapEntry::CaptureSlices, false),
                                 (CapEntry::CaptureSlicesDeadline, true),
                                 (CapEntry::Manual, false),
+                                (CapEntry::ManualBorrowed, false),
                                 (CapEntry::TextFromSlices, false),
                                 (CapEntry::TextConfigDeadline, true),
                             ],
